@@ -60,7 +60,9 @@ theorem resolvePath_spec (fs : Fs) (path : Str) (incs : List Str) :
 theorem file_step (fs : Fs) (d : Nat) (path : Str) (incs : List Str) (st : PState) :
     parseFileAt fs (d + 1) path incs st =
       match fs.read (resolve fs path incs) with
-      | none => .error ⟨none, "cannot-read-file:" ++ String.ofList (resolve fs path incs)⟩
+      | none =>
+        if fs.isDir (resolve fs path incs) then .error ⟨none, "read-directory"⟩
+        else .error ⟨none, "cannot-read-file:" ++ String.ofList (resolve fs path incs)⟩
       | some src =>
         match runFrom (parseFileAt fs d) (resolve fs path incs) (st, insideSet (resolve fs path incs) incs)
             .newLine (numbered (lines src)) with
@@ -84,7 +86,9 @@ theorem include_step (inc : IncludeFn) (cur : Str) (incs : List Str) (st : PStat
     directiveParse inc cur incs st .include (.opList [.s path]) ln =
       match inc path incs st with
       | .ok (st', incs') => .ok (st', incs', .newLine)
-      | .error e => .error e
+      | .error e =>
+        -- the nesting limit is an error of THIS line (MAX_INCLUDE_DEPTH, see C16)
+        if e.kind = "include-depth" ∧ e.line = none then lineErr ln "include-depth" else .error e
       | .panic s => .panic s
       | .oof => .oof := by
   simp only [directiveParse, List.head?_cons]
@@ -107,7 +111,12 @@ theorem missing_file_named (fs : Fs) (d : Nat) (path : Str) (incs : List Str) (s
     cases hl : alookup (normPath fs path) fs.files with
     | none => rfl
     | some v => simp [hl] at hex
+  have hdir : fs.isDir path = false := by
+    unfold Fs.exists at hex
+    simp only [Bool.or_eq_false_iff] at hex
+    exact hex.2
   rw [file_step, hr, hread]
+  simp only [hdir, Bool.false_eq_true, if_false]
 
 /-- a file that exists in some directory of the include set (or as written) is found: the path
     read from exists -/
